@@ -137,9 +137,19 @@ def pushDiag (var : Str) (x : N) (line : Nat) : Outcome Unit (List Diag) :=
   (numericPayload (str% "Rock ") (var ++ str% " like ") text).bind fun sugg =>
     .ok [buildDiag var text sugg line]
 
-/-- `maybe_build_string_diag`: "`var` says text" unless the text contains a line break -/
+/-- repaired code: a poetic string ends at the end of the line, and a comment left open in it
+    would swallow the rest of the program. `inComment`: scanning state. -/
+def hasPoeticStringSpelling : Str → Bool → Bool
+  | [], inComment => !inComment
+  | c :: cs, inComment =>
+    if c = '\n' then false
+    else if c = '(' then hasPoeticStringSpelling cs true
+    else if c = ')' then hasPoeticStringSpelling cs false
+    else hasPoeticStringSpelling cs inComment
+
+/-- `maybe_build_string_diag`: "`var` says text" when the text has a poetic spelling -/
 def stringDiag (var : Str) (s : Str) (line : Nat) : List Diag :=
-  let sugg := if s.contains '\n' then none else some (var ++ str% " says " ++ s)
+  let sugg := if hasPoeticStringSpelling s false then some (var ++ str% " says " ++ s) else none
   [buildDiag var ('"' :: s ++ ['"']) sugg line]
 
 def boringAssign (dest : Lhs N) (op : Option BinOp) (value : ExprList N) : Outcome Unit (List Diag) :=
